@@ -42,10 +42,14 @@ pub struct FProg {
     /// of its waker; the only thing ordering a thread's flag store before the re-poll is the wake itself
     #[serde(default)]
     pub direct: bool,
+    /// with `flag_per_waker`: the flags are one counter that every waking thread increments once (fetch_add); the future is
+    /// ready when it reads the number of waking threads. A multi-valued location keeps intermediate values readable.
+    #[serde(default)]
+    pub counter: bool,
 }
 impl FProg {
     pub fn s(&self) -> String {
-        format!("block_on(fut[{}{}{}{}])  ||  {}", if self.direct { "no registration" } else if self.use_aw { "AtomicWaker" } else { "waker slot in a Mutex" }, if self.recheck { ", re-check after register" } else { ", no re-check" }, if self.flag_per_waker { ", one flag per waker" } else { "" }, if self.relaxed_flags { ", relaxed flags" } else { "" }.to_string() + if self.direct { ", wakers handed out at the first poll" } else { "" }, self.wakers.iter().map(|t| t.iter().map(|o| format!("{:?}", o)).collect::<Vec<_>>().join("; ")).collect::<Vec<_>>().join("  ||  "))
+        format!("block_on(fut[{}{}{}{}])  ||  {}", if self.direct { "no registration" } else if self.use_aw { "AtomicWaker" } else { "waker slot in a Mutex" }, if self.recheck { ", re-check after register" } else { ", no re-check" }, if self.counter { ", one counter incremented by every waker" } else if self.flag_per_waker { ", one flag per waker" } else { "" }, if self.relaxed_flags { ", relaxed flags" } else { "" }.to_string() + if self.direct { ", wakers handed out at the first poll" } else { "" }, self.wakers.iter().map(|t| t.iter().map(|o| format!("{:?}", o)).collect::<Vec<_>>().join("; ")).collect::<Vec<_>>().join("  ||  "))
     }
 }
 
@@ -167,6 +171,7 @@ fn reference(p: &FProg, spurious: bool) -> (bool, bool) {
 
 // ---- real loom -------------------------------------------------------------------------------
 struct Shared {
+    count: Option<loom::sync::atomic::AtomicUsize>,
     flags: [AtomicBool; 2],
     need: usize,
     relaxed: bool,
@@ -178,6 +183,9 @@ struct Shared {
 impl Shared {
     fn ready(&self) -> bool {
         let o = if self.relaxed { Relaxed } else { Acquire };
+        if let Some(c) = &self.count {
+            return c.load(o) == self.need;
+        }
         (0..self.need).all(|i| self.flags[i].load(o))
     }
 }
@@ -204,7 +212,12 @@ impl Future for Fut {
                         for op in &p3.wakers[t] {
                             e3.fetch_add(1, SeqCst);
                             match op {
-                                WOp::SetFlag => s2.flags[if p3.flag_per_waker { t.min(1) } else { 0 }].store(true, if p3.relaxed_flags { Relaxed } else { Release }),
+                                WOp::SetFlag => match &s2.count {
+                                    Some(c) => {
+                                        c.fetch_add(1, if p3.relaxed_flags { Relaxed } else { Release });
+                                    }
+                                    None => s2.flags[if p3.flag_per_waker { t.min(1) } else { 0 }].store(true, if p3.relaxed_flags { Relaxed } else { Release }),
+                                },
                                 WOp::Wake | WOp::WakeByRef => {
                                     if let Some(w) = waker.as_ref() {
                                         s2.wakes.fetch_add(1, SeqCst);
@@ -267,7 +280,7 @@ pub fn run_loom_bounded(p: &FProg, iter_cap: usize, bound: Option<usize>) -> FRu
             if i2.fetch_add(1, SeqCst) >= iter_cap {
                 panic!("{}", ITER_CAP_MSG);
             }
-            let s = Arc::new(Shared { flags: [AtomicBool::new(false), AtomicBool::new(false)], need: if p2.flag_per_waker { p2.wakers.len().min(2) } else { 1 }, relaxed: p2.relaxed_flags, slot: loom::sync::Mutex::new(None), aw: AtomicWaker::new(), polls: Default::default(), wakes: Default::default() });
+            let s = Arc::new(Shared { count: if p2.counter { Some(loom::sync::atomic::AtomicUsize::new(0)) } else { None }, flags: [AtomicBool::new(false), AtomicBool::new(false)], need: if p2.flag_per_waker { p2.wakers.len().min(2) } else { 1 }, relaxed: p2.relaxed_flags, slot: loom::sync::Mutex::new(None), aw: AtomicWaker::new(), polls: Default::default(), wakes: Default::default() });
             let use_aw = p2.use_aw;
             let mut hs = Vec::new();
             let handles: Arc<Mutex<Vec<loom::thread::JoinHandle<()>>>> = Arc::new(Mutex::new(Vec::new()));
@@ -277,7 +290,12 @@ pub fn run_loom_bounded(p: &FProg, iter_cap: usize, bound: Option<usize>) -> FRu
                     for op in &p3.wakers[t] {
                         e3.fetch_add(1, SeqCst);
                         match op {
-                            WOp::SetFlag => s2.flags[if p3.flag_per_waker { t.min(1) } else { 0 }].store(true, if p3.relaxed_flags { Relaxed } else { Release }),
+                            WOp::SetFlag => match &s2.count {
+                                Some(c) => {
+                                    c.fetch_add(1, if p3.relaxed_flags { Relaxed } else { Release });
+                                }
+                                None => s2.flags[if p3.flag_per_waker { t.min(1) } else { 0 }].store(true, if p3.relaxed_flags { Relaxed } else { Release }),
+                            },
                             WOp::Wake => {
                                 if use_aw {
                                     if let Some(w) = s2.aw.take_waker() {
@@ -414,29 +432,37 @@ fn core() -> &'static Vec<FProg> {
             }
             for l in &lists {
                 for recheck in [true, false] {
-                    v.push(FProg { use_aw, recheck, wakers: vec![l.clone()], flag_per_waker: false, relaxed_flags: false, direct: false });
+                    v.push(FProg { use_aw, recheck, wakers: vec![l.clone()], flag_per_waker: false, relaxed_flags: false, direct: false, counter: false });
                 }
             }
             // two waker threads
             // (two wakers cost >= 100 000 iterations each: a handful here, more in the random part of the thorough tier)
             for (a, b) in [(vec![SetFlag, Wake], vec![Wake]), (vec![SetFlag], vec![SetFlag, Wake])] {
-                v.push(FProg { use_aw, recheck: true, wakers: vec![a.clone(), b.clone()], flag_per_waker: false, relaxed_flags: false, direct: false });
+                v.push(FProg { use_aw, recheck: true, wakers: vec![a.clone(), b.clone()], flag_per_waker: false, relaxed_flags: false, direct: false, counter: false });
             }
             // two wakers, each with its own relaxed flag: the flags are only visible through the wakes; when the two
             // wakes coalesce into one notification the re-poll must still see both
-            v.push(FProg { use_aw, recheck: true, wakers: vec![vec![SetFlag, Wake], vec![SetFlag, Wake]], flag_per_waker: true, relaxed_flags: true, direct: false });
-            v.push(FProg { use_aw, recheck: true, wakers: vec![vec![SetFlag, Wake], vec![SetFlag, Wake]], flag_per_waker: true, relaxed_flags: false, direct: false });
-            v.push(FProg { use_aw, recheck: true, wakers: vec![vec![SetFlag, Wake]], flag_per_waker: false, relaxed_flags: true, direct: false });
+            v.push(FProg { use_aw, recheck: true, wakers: vec![vec![SetFlag, Wake], vec![SetFlag, Wake]], flag_per_waker: true, relaxed_flags: true, direct: false, counter: false });
+            v.push(FProg { use_aw, recheck: true, wakers: vec![vec![SetFlag, Wake], vec![SetFlag, Wake]], flag_per_waker: true, relaxed_flags: false, direct: false, counter: false });
+            v.push(FProg { use_aw, recheck: true, wakers: vec![vec![SetFlag, Wake]], flag_per_waker: false, relaxed_flags: true, direct: false, counter: false });
             if !use_aw {
                 // wakers handed out at the first poll (no registration): one and two waking threads, every flag ordering
                 for relaxed_flags in [false, true] {
-                    v.push(FProg { use_aw, recheck: true, wakers: vec![vec![SetFlag, Wake]], flag_per_waker: false, relaxed_flags, direct: true });
-                    v.push(FProg { use_aw, recheck: true, wakers: vec![vec![SetFlag, Wake], vec![SetFlag, Wake]], flag_per_waker: true, relaxed_flags, direct: true });
-                    v.push(FProg { use_aw, recheck: true, wakers: vec![vec![SetFlag, Wake], vec![SetFlag, Wake]], flag_per_waker: false, relaxed_flags, direct: true });
-                    v.push(FProg { use_aw, recheck: true, wakers: vec![vec![Wake, SetFlag, Wake], vec![SetFlag]], flag_per_waker: true, relaxed_flags, direct: true });
-                    v.push(FProg { use_aw, recheck: true, wakers: vec![vec![SetFlag], vec![SetFlag, Wake]], flag_per_waker: true, relaxed_flags, direct: true });
+                    v.push(FProg { use_aw, recheck: true, wakers: vec![vec![SetFlag, Wake]], flag_per_waker: false, relaxed_flags, direct: true, counter: false });
+                    v.push(FProg { use_aw, recheck: true, wakers: vec![vec![SetFlag, Wake], vec![SetFlag, Wake]], flag_per_waker: true, relaxed_flags, direct: true, counter: false });
+                    v.push(FProg { use_aw, recheck: true, wakers: vec![vec![SetFlag, Wake], vec![SetFlag, Wake]], flag_per_waker: false, relaxed_flags, direct: true, counter: false });
+                    v.push(FProg { use_aw, recheck: true, wakers: vec![vec![Wake, SetFlag, Wake], vec![SetFlag]], flag_per_waker: true, relaxed_flags, direct: true, counter: false });
+                    v.push(FProg { use_aw, recheck: true, wakers: vec![vec![SetFlag], vec![SetFlag, Wake]], flag_per_waker: true, relaxed_flags, direct: true, counter: false });
                 }
-                v.push(FProg { use_aw, recheck: true, wakers: vec![vec![SetFlag, WakeByRef], vec![SetFlag, WakeByRef]], flag_per_waker: true, relaxed_flags: true, direct: false });
+                v.push(FProg { use_aw, recheck: true, wakers: vec![vec![SetFlag, WakeByRef], vec![SetFlag, WakeByRef]], flag_per_waker: true, relaxed_flags: true, direct: false, counter: false });
+                // one counter, two wakers, both wakes may arrive during the first poll: the poll caused by the (coalesced)
+                // wake must see both increments; a stale intermediate value stays readable after the spurious re-poll
+                for relaxed_flags in [true, false] {
+                    for direct in [true, false] {
+                        v.push(FProg { use_aw, recheck: true, wakers: vec![vec![SetFlag, Wake], vec![SetFlag, Wake]], flag_per_waker: true, relaxed_flags, direct, counter: true });
+                        v.push(FProg { use_aw, recheck: true, wakers: vec![vec![SetFlag, WakeByRef], vec![SetFlag, WakeByRef]], flag_per_waker: true, relaxed_flags, direct, counter: true });
+                    }
+                }
             }
         }
         v
@@ -460,7 +486,7 @@ pub fn prog_at(seed: u64, idx: usize) -> FProg {
     let n = if rng.chance(1, 8) { 2 } else { 1 };
     let wakers: Vec<Vec<WOp>> = (0..n).map(|_| (0..1 + rng.below(if n == 1 { 4 } else { 2 })).map(|_| *rng.pick(&al)).collect()).collect();
     let two = wakers.len() == 2;
-    FProg { use_aw, recheck: rng.chance(3, 4), wakers, flag_per_waker: two && rng.chance(1, 2), relaxed_flags: rng.chance(1, 3), direct: rng.chance(1, 4) }
+    FProg { use_aw, recheck: rng.chance(3, 4), wakers, flag_per_waker: two && rng.chance(1, 2), relaxed_flags: rng.chance(1, 3), direct: rng.chance(1, 4), counter: false }
 }
 
 pub fn judge(p: &FProg, rec: &mut Rec, tier: u8) {
